@@ -10,8 +10,8 @@ def st(run, checks, shards=1, race=False, timeout=900, env=None, **kw):
 PROPS = {
     "C01": {
         "pkg": "core", "level": "exploration",
-        "quick": {"stages": [st("^TestC01", 2500)]},
-        "thorough": {"stages": [st("^TestC01", 30000, shards=16, timeout=2400)],
+        "quick": {"stages": [st("^TestC01", 2500), st("^TestC01Gate", 250, pkg="session")]},
+        "thorough": {"stages": [st("^TestC01", 30000, shards=16, timeout=2400), st("^TestC01Gate", 3000, shards=4, pkg="session", timeout=2400)],
                      "fuzz": [{"target": "FuzzC01Serialize", "seconds": 120}]},
     },
     "C03": {
@@ -86,8 +86,8 @@ PROPS = {
     },
     "C07": {
         "pkg": "handlers", "level": "exploration",
-        "quick": {"stages": [st("^TestC07Sequential", 600), st("^TestC07Concurrent", 600), st("^TestC07Backpressure", 150), st("^TestC07Churn", 12)]},
-        "thorough": {"stages": [st("^TestC07Sequential", 10000, shards=6, timeout=3000), st("^TestC07Concurrent", 12000, shards=5, timeout=3000), st("^TestC07Concurrent", 2500, shards=2, race=True, timeout=3000), st("^TestC07Backpressure", 1500, shards=3, timeout=3000), st("^TestC07Churn", 150, shards=2, timeout=3000), st("^TestC07Churn", 40, shards=1, race=True, timeout=3000)]},
+        "quick": {"stages": [st("^TestC07Sequential", 600), st("^TestC07Concurrent", 600), st("^TestC07Backpressure", 150), st("^TestC07Churn", 12), st("^TestC07BacklogSiblingClose", 60, shards=3)]},
+        "thorough": {"stages": [st("^TestC07Sequential", 10000, shards=6, timeout=3000), st("^TestC07Concurrent", 12000, shards=5, timeout=3000), st("^TestC07Concurrent", 2500, shards=2, race=True, timeout=3000), st("^TestC07Backpressure", 1500, shards=3, timeout=3000), st("^TestC07Churn", 150, shards=2, timeout=3000), st("^TestC07Churn", 40, shards=1, race=True, timeout=3000), st("^TestC07BacklogSiblingClose", 1500, shards=6, timeout=3000)]},
     },
     "C15": {
         "pkg": "core", "level": "exploration",
